@@ -29,6 +29,10 @@
  *   sig=<s>A,<s>A          SIGALRM at T0+s
  *   sf=<n>                 the n-th stat() of the start-up scan (pqstart/pqadd: info, todo, local, remote per message)
  *                          fails with EIO (-> pqfail); found by a pre-run of the same scenario
+ *   uf=<n> tf=<n>          the n-th unlink() / utimes() call of the daemon (counted over the whole scenario, all incarnations) fails
+ *                          with EIO: job_close's unlink of a finished channel file (-> back into pqchan at now+SLEEP_SYSFAIL),
+ *                          messdone's unlink of info/<id> (-> pqdone at now+SLEEP_SYSFAIL), injectbounce's unlink of bounce/<id>;
+ *                          pqfinish's / pass_finish's utimes at exit (-> the file keeps its mtime: "retried too soon")
  *   m=<msg>;<msg>;...      p<nl>.<nr>.<age>.<due0>.<due1>  in the queue at start: nl local / nr remote recipients, info mtime
  *                                                          T0-age, local/<id> mtime T0+due0, remote/<id> mtime T0+due1
  *                          a<nl>.<nr>.<at>                 arrives in todo/ (trigger pulled) at T0+at
@@ -39,6 +43,7 @@
  *   c:<t>:<chan>:<id>:<delnum>:<attempt>:<retry>:<dying>:<recip>   delivery command seen; retry / dying = jo[j].retry / flagdying of its job
  *   r:<t>:<chan>:<id>:<letter>:<attempt>   report released
  *   n:<t>:<id>   message arrived          b:<t>:<ok|fail>   bounce injection     g:<t>:<sig>   signal     f:<callno>   injected stat fault
+ *   F:<t>:<call>:<path>   injected failure of unlink / utimes on that file (path relative to the queue directory)
  *   i:<t>:<n>    the n-th daemon process starts on the queue (n >= 2: restart)
  *   q:<id>:<birth>   a message in the queue at start (mtime of info/<id>)
  *   x:<exitcode>:<crashed>:<clock>:<pass0>:<pass1>   end of a daemon; pass<c> = pass[c].id when it exited (a pass cut short by TERM)
@@ -84,7 +89,7 @@ typedef struct {
   char out[48]; int ndur; long dur[48];
   char bf[24];
   int nsig; struct { long at; int done; } sig[4];
-  int sf;
+  int sf, uf, tf;
   int nterm; long term[4]; long down;
   char text[1400];
 } lscen;
@@ -185,6 +190,32 @@ static void preload(lmsg *m, int idx) {                /* a message the daemon h
   }
   m->created = ino;
   if (!prerun_world) rec(0, "q:%d:%ld", ino, T0 - m->age);
+}
+
+/* ---- injected unlink()/utimes() failures by call index (sim_gate_hook: runs before the fault table is consulted) ---- */
+static int nunlink, nutimes, fault_watch; static long fault_t;
+static void harvest_fault(void) {
+  if (!fault_watch) return;
+  fault_watch = 0; sim_trace_on = 0;
+  char *s = (char *)sim_trace.p; size_t n = sim_trace.n, i = 0;
+  while (i < n) {
+    size_t j = i; while (j < n && s[j] != '\n') j++;
+    char line[300]; size_t l = j - i < sizeof line - 1 ? j - i : sizeof line - 1; memcpy(line, s + i, l); line[l] = 0; i = j + 1;
+    int k; char what[32], arg[200];
+    if (strstr(line, "FAULT") && sscanf(line, "P0 #%d %31s %199s", &k, what, arg) == 3) rec(0, "F:%ld:%s:%s", fault_t, what, arg);
+  }
+  sim_trace.n = 0;
+}
+static void loop_gate(simproc *p, const char *what) {
+  if (fault_watch) harvest_fault();
+  if (p->idx != 0 || prerun) return;
+  int hit = 0;
+  if (!strcmp(what, "unlink")) { if (++nunlink == S.uf) hit = 1; }
+  else if (!strcmp(what, "utimes")) { if (++nutimes == S.tf) hit = 1; }
+  if (hit && sim_nfaults < 8) {
+    sim_faults[sim_nfaults].proc = 0; sim_faults[sim_nfaults].callno = p->ncalls; sim_faults[sim_nfaults].err = EIO; sim_nfaults++;
+    sim_trace_on = 1; sim_trace.n = 0; fault_watch = 1; fault_t = W.clock;
+  }
 }
 
 /* ---- the daemon's select: discrete-event clock + snapshot ---- */
@@ -312,7 +343,7 @@ static void run_daemon(void) {
   sim_fd_pipe(p1, 1, b, 1); sim_fd_pipe(p0, 6, b, 0);
   sim_fd_sink(p1, 2);
   sim_threads = 1;
-  sim_select_hook = loop_select; sim_sink_hook = 0;
+  sim_select_hook = loop_select; sim_sink_hook = 0; sim_gate_hook = (S.uf > 0 || S.tf > 0) ? loop_gate : 0;
   sim_spawn(p0, qs_main); sim_spawn(p1, qc_main);
   sim_run_all();
   sim_threads = 0;
@@ -340,7 +371,7 @@ static void run_scenario(void) {
   }
   world_init();
   sim_trace_on = 0;
-  nattempt = 0; nbounce = 0;
+  nattempt = 0; nbounce = 0; nunlink = 0; nutimes = 0; fault_watch = 0;
   if (faultcall) { sim_faults[0].proc = 0; sim_faults[0].callno = faultcall; sim_faults[0].err = EIO; sim_nfaults = 1; rec(0, "f:%d", faultcall); }
   for (int inc = 0; inc <= S.nterm; inc++) {
     term_final = inc == S.nterm;
@@ -348,6 +379,7 @@ static void run_scenario(void) {
     if (term_final && term_time < W.clock + 1) term_time = W.clock + 1;
     rec(0, "i:%ld:%d", W.clock, inc + 1);
     run_daemon();
+    harvest_fault();
     sim_nfaults = 0;
     parse_commands();
     flush_rec();
@@ -374,6 +406,8 @@ static int parse_scenario(const char *text) {
     else if (!strcmp(t, "out")) snprintf(S.out, sizeof S.out, "%s", v);
     else if (!strcmp(t, "bf")) snprintf(S.bf, sizeof S.bf, "%s", v);
     else if (!strcmp(t, "sf")) S.sf = atoi(v);
+    else if (!strcmp(t, "uf")) S.uf = atoi(v);
+    else if (!strcmp(t, "tf")) S.tf = atoi(v);
     else if (!strcmp(t, "down")) { S.down = atol(v); if (S.down < 0) S.down = 0; if (S.down > 100000) S.down = 100000; }
     else if (!strcmp(t, "term")) { char *s2 = 0; for (char *u = strtok_r(v, ",", &s2); u && S.nterm < 4; u = strtok_r(0, ",", &s2)) { long x = atol(u); S.term[S.nterm++] = x < 0 ? 0 : x; } }
     else if (!strcmp(t, "dur")) { char *s2 = 0; for (char *u = strtok_r(v, ",", &s2); u && S.ndur < 48; u = strtok_r(0, ",", &s2)) { long x = atol(u); S.dur[S.ndur++] = x < 0 ? 0 : x; } }
@@ -459,7 +493,9 @@ static void gen_scenario(char *o, size_t osz) {
     n += snprintf(o + n, osz - n, "/term=%ld", t1);
     if (h_below(3) == 0) n += snprintf(o + n, osz - n, ",%ld", t1 + 1 + (long)(h_below(2) ? h_below(300) : h_below(1500)));
     if (h_below(3) == 0) n += snprintf(o + n, osz - n, "/down=%ld", (long[]){ 1, 5, 300, 3000 }[h_below(4)]);
+    if (h_below(2) == 0) n += snprintf(o + n, osz - n, "/tf=%d", 1 + (int)h_below(3));     /* a utimes of the exit sequence fails */
   }
+  if (h_below(5) == 0) n += snprintf(o + n, osz - n, "/uf=%d", 1 + (int)h_below(5));       /* an unlink (job_close / messdone / injectbounce) fails */
 }
 
 int main(int argc, char **argv) {
